@@ -63,7 +63,7 @@ class TimerMonitor:
     def __init__(self):
         self.count = 0
         self.latched = 0
-        self.oneshot = None      # (L, cycles enabled so far) while a pure one-shot is running
+        self.oneshot = None      # (L, k): the current cycle is k cycles after the loaded value L became visible
 
     def observe(self, letter, outs):
         load, reload, en, upd = letter
@@ -73,30 +73,23 @@ class TimerMonitor:
             msg = "zero=%d while the reference count is %d" % (zero, self.count)
         elif status != self.latched:
             msg = "value register %d, expected latched count %d" % (status, self.latched)
-        if msg is None and self.oneshot is not None:
+        elif self.oneshot is not None:
             L, k = self.oneshot
             if (k >= L) != bool(zero):
-                msg = "one-shot load=%d: zero=%d after %d enabled cycles" % (L, zero, k)
-        # one-shot bookkeeping: starts with the first enabled cycle after a disabled one, ends when disabled or
-        # when a non-zero reload is offered while the count is 0
+                msg = "one-shot load=%d: zero=%d, %d cycles after the enable became visible" % (L, zero, k)
+        # explicit cycle counter for the one-shot claim: (re)armed by every disabled cycle, dropped when a non-zero
+        # reload is taken at 0 (periodic mode)
         if not en:
-            self.oneshot = ("arm", load)
+            self.oneshot = (load, 0)
         elif self.oneshot is not None:
-            if self.oneshot[0] == "arm":
-                self.oneshot = (self.oneshot[1], 0)
             L, k = self.oneshot
-            if k >= L and reload != 0:
-                self.oneshot = None
-            else:
-                self.oneshot = (L, k + 1)
+            self.oneshot = None if (k >= L and reload != 0) else (L, k + 1)
         if upd:
             self.latched = self.count
         if en:
             self.count = reload if self.count == 0 else self.count - 1
         else:
             self.count = load
-        if self.oneshot is not None and self.oneshot[0] == "arm" and en:
-            self.oneshot = None
         return msg
 
 
@@ -104,7 +97,7 @@ def mk_timer(width, values=None):
     from litex.soc.cores.timer import Timer
     core = Timer(width=width)
     top = (1 << width) - 1
-    vals = list(values) if values is not None else list(range(1 << width))
+    vals = list(values) if values is not None else (list(range(1 << width)) if width <= 4 else [0, 1, 2, top])
     small = [0, 1, 2, 3, 5, 8, 13]
 
     def gen(rng, t):
@@ -164,7 +157,7 @@ def mk_watchdog(width, delay, values=None):
     core = Watchdog(width=width, crg_rst=crg_rst, reset_delay=delay, halted=halted)
     f = core._control.fields
     top = (1 << width) - 1
-    vals = list(values) if values is not None else list(range(1 << width))
+    vals = list(values) if values is not None else (list(range(1 << width)) if width <= 4 else [0, 1, 2, top])
 
     def gen(rng, t):
         regime = (t // 83) % 4
@@ -533,11 +526,19 @@ class SpiMasterMonitor:
         self.x = None            # current transfer
         self.prev = None         # (clk, cs_n, mosi pad, miso pad) of the previous cycle
         self.check_miso = None
+        self.div0 = None         # the divider must have been constant since reset (its counter compares with `==`)
+        self.dead = False
 
     def observe(self, letter, outs):
         start, length, mosi, cs, csm, lb, div, miso_pad = letter
         clk, cs_n, mosi_pad, done, irq, miso = outs
         msg = None
+        if self.div0 is None:
+            self.div0 = div
+        if div != self.div0:
+            self.dead = True
+        if self.dead:
+            return None
         prev = self.prev
         self.prev = (clk, cs_n, mosi_pad, miso_pad)
         if self.check_miso is not None:
@@ -557,8 +558,8 @@ class SpiMasterMonitor:
                           "bits": [], "high": 0, "lb": lb, "last_rise_t": None}
             return msg
         x["t"] += 1
-        if not x["ok"] or cs != 1 or csm or div != x["div"] or lb != x["lb"]:
-            x["ok"] = False
+        if not x["ok"] or cs != 1 or csm or div != x["div"] or lb != x["lb"] or length != x["len"]:
+            x["ok"] = False          # registers changed during the transfer: outside the armed domain
         if x["ok"]:
             rising = prev is not None and clk and not prev[0]
             falling = prev is not None and (not clk) and prev[0]
@@ -638,17 +639,21 @@ class SpiMasterInst(PInst):
         return SpiMasterMonitor(self.dw, self.aligned)
 
     def gen(self, rng, t):
+        if t == 0:
+            self._div = rng.choice(self.divs)
         if t == 0 or self._st is None or t % 997 == 0:
-            self._st = {"div": rng.choice(self.divs), "lb": 1 if rng.random() < 0.3 else 0,
-                        "pstart": rng.choice([0.02, 0.2, 0.8]), "len": 1, "word": 0}
+            div = self._div
+            self._st = {"div": div, "lb": 1 if rng.random() < 0.3 else 0,
+                        "pstart": rng.choice([1.0 / (3 * self.dw * div), 0.2, 0.8]),
+                        "sticky": rng.random() < 0.5,      # registers constant for the whole regime (overlapping starts)
+                        "len": rng.randint(1, self.dw), "word": rng.getrandbits(self.dw)}
         st = self._st
         start = 1 if rng.random() < st["pstart"] else 0
-        if rng.random() < 0.1 or start:
-            # software changes the registers only between transfers most of the time; sometimes mid-transfer
+        if not st["sticky"] and (start or rng.random() < 0.01):
             st["len"] = rng.randint(1, self.dw) if rng.random() < 0.97 else rng.choice([0, self.dw + 1, 255])
             st["word"] = rng.getrandbits(self.dw)
-        cs = 1 if rng.random() < 0.995 else 0
-        csm = 1 if rng.random() < 0.003 else 0
+        cs = 1 if rng.random() < 0.998 else 0
+        csm = 1 if rng.random() < 0.002 else 0
         return (start, st["len"], st["word"], cs, csm, st["lb"], st["div"], rng.randint(0, 1))
 
 
@@ -686,13 +691,15 @@ class SpiSlaveMonitor:
         if irq and self.expect is not None:
             deadline, bits = self.expect
             self.expect = None
+            nb = min(len(bits), self.dw)            # bits above the transfer length keep older data
+            mask = (1 << nb) - 1
             word = 0
             for b in bits:
-                word = ((word << 1) | b) & ((1 << self.dw) - 1)
+                word = ((word << 1) | b) & mask
             if length != len(bits) % 256:
                 msg = "length=%d, the frame had %d rising clock edges" % (length, len(bits))
-            elif rx != word:
-                msg = "received 0x%x, MOSI carried 0x%x" % (rx, word)
+            elif (rx & mask) != word:
+                msg = "received 0x%x (low %d bits), MOSI carried 0x%x" % (rx & mask, nb, word)
         elif self.expect is not None and len(h) > self.expect[0]:
             msg = "no irq within 6 cycles after cs_n was released"
             self.expect = None
